@@ -49,3 +49,60 @@ pub fn facts_of(items: &[(&str, &RV)]) -> Value {
 pub fn re_json(e: &RE) -> serde_json::Value {
     serde_json::json!(format!("{e:?}"))
 }
+
+/// a reference value handed to reval as a serde type (`RuleSet::evaluate(&T)`); `none_as_unit`
+/// chooses how a None is written (`()` / unit struct versus `Option::None`)
+pub struct AsSerde<'a>(pub &'a RV, pub bool);
+
+impl serde::Serialize for AsSerde<'_> {
+    fn serialize<S: serde::Serializer>(&self, s: S) -> Result<S::Ok, S::Error> {
+        use serde::ser::{SerializeMap, SerializeSeq};
+        match self.0 {
+            RV::None => {
+                if self.1 {
+                    s.serialize_unit()
+                } else {
+                    s.serialize_none()
+                }
+            }
+            RV::Bool(b) => s.serialize_bool(*b),
+            RV::Int(i) => match i64::try_from(*i) {
+                Ok(x) => s.serialize_i64(x),
+                Err(_) => s.serialize_i128(*i),
+            },
+            RV::Str(t) => s.serialize_str(t),
+            RV::List(v) => {
+                let mut q = s.serialize_seq(Some(v.len()))?;
+                for x in v {
+                    q.serialize_element(&AsSerde(x, self.1))?;
+                }
+                q.end()
+            }
+            RV::Map(m) => {
+                let mut q = s.serialize_map(Some(m.len()))?;
+                for (k, x) in m {
+                    q.serialize_entry(k, &AsSerde(x, self.1))?;
+                }
+                q.end()
+            }
+            other => Err(serde::ser::Error::custom(format!("AsSerde does not cover {}", other.show()))),
+        }
+    }
+}
+
+/// Evaluate through a one-rule ruleset and `RuleSet::evaluate(&T)` (the serde entry point).
+pub fn eval_via_serde(expr: &Expr, facts: &RV, none_as_unit: bool) -> Obs {
+    let r = catch(|| {
+        let rs = ruleset().with_rule(Rule::new("r", BTreeMap::new(), expr.clone())).map_err(|e| format!("with_rule failed: {e}"))?.build();
+        let out = block_on(rs.evaluate(&AsSerde(facts, none_as_unit)))?.map_err(|e| format!("evaluate failed: {e}"))?;
+        if out.len() != 1 {
+            return Err(format!("{} outcomes for one rule", out.len()));
+        }
+        Ok::<_, String>(out.into_iter().next().unwrap().value)
+    });
+    match r {
+        Err(p) => Obs::Panic(p),
+        Ok(Err(m)) => Obs::Panic(format!("MACHINERY: {m}")),
+        Ok(Ok(v)) => observe(Ok(v)),
+    }
+}
